@@ -13,7 +13,12 @@ Open Scope Z_scope.
 Theorem gen_merge_ok_eq a b mx :
   merge_ok a b mx
   = gen_check_merge_with_next_t1 (l_rep a) (l_rep b) (negb (l_vol a)) (negb (l_vol b)) (l_len a) (l_len b) mx.
-Proof. reflexivity. Qed.
+Proof.
+  (* by cases on the atoms, not by syntactic identity: a re-ordering of the conjuncts in the source keeps this proof *)
+  unfold merge_ok, gen_check_merge_with_next_t1.
+  destruct (l_rep a =? 1), (l_rep b =? 1), (l_vol a), (l_vol b), (l_len a + l_len b <? mx) eqn:E; cbn;
+    try reflexivity; try (rewrite ?E; reflexivity); try (rewrite Z.add_comm, E || rewrite Z.add_comm in E; rewrite ?E; reflexivity).
+Qed.
 
 (* ---- _check_partial_unroll ---- *)
 Definition pu_obs {T} (f : bool -> Z -> Z -> Z -> Z -> T) (st : loop) (mn : Z) : T :=
@@ -116,15 +121,76 @@ Proof.
     unfold prep_step, after_unroll.
     destruct before as [|p bt]; destruct rest as [|nx rt]; cbn [hd tl length];
       repeat match goal with
-             | |- context [Z.of_nat ?a >? 0] => first [replace (Z.of_nat a >? 0) with true by lia
-                                                      |replace (Z.of_nat a >? 0) with false by lia]
-             | |- context [Z.of_nat ?a + 1 <? Z.of_nat ?b] =>
-                 first [replace (Z.of_nat a + 1 <? Z.of_nat b) with true by lia
-                       |replace (Z.of_nat a + 1 <? Z.of_nat b) with false by lia]
+             | |- context [?x >? ?y] =>
+                 match x with context [Z.of_nat] => idtac | _ => match y with context [Z.of_nat] => idtac end end;
+                 first [replace (x >? y) with true by lia|replace (x >? y) with false by lia]
+             | |- context [?x <? ?y] =>
+                 match x with context [Z.of_nat] => idtac | _ => match y with context [Z.of_nat] => idtac end end;
+                 first [replace (x <? y) with true by lia|replace (x <? y) with false by lia]
              end; cbn [andb];
       destruct (l_len cur >? mx); try reflexivity;
       destruct (l_len cur <? mn); try reflexivity;
       destruct (l_rep cur >? 0); cbn [negb]; try reflexivity;
       destruct ((l_rep cur =? 1) && negb (l_vol cur)); try reflexivity;
-      split_ifs; try reflexivity; try discriminate.
+      split_ifs; try reflexivity; try discriminate; try (exfalso; lia).
+Qed.
+
+(* ---- TaborProgram.__init__, setup_single_sequence_mode, setup_advanced_sequence_mode ---- *)
+Definition init_obs {T} (f : Z -> Z -> Z -> Z -> bool -> Z -> bool -> bool -> bool -> T) (c : cfg) (p : loop)
+  (single : bool) : T :=
+  f (c_nchan c) (c_nmark c) (c_cpp c) (l_rep p) (l_vol p) (depth p)
+    (match c_mode c with None => true | Some _ => false end) true single.
+
+Definition single_obs {T} (f : Z -> bool -> bool -> Z -> Z -> T) (c : cfg) (p : loop) : T :=
+  f (depth p) (balanced p) true (l_len p) (c_max c).
+
+Definition adv_obs {T} (f : Z -> Z -> Z -> Z -> Z -> T) (c : cfg) (p t : loop) : T :=
+  f (depth p) (l_rep p) (l_len t) (c_min c) (c_max c).
+
+Definition compile_with_gen (ff pf : nat) (c : cfg) (tbl : list wfdata) (prog : loop) : result out :=
+  if init_obs gen_init_t1 c prog false then Err EChannels
+  else if init_obs gen_init_t2 c prog false then Err EChannels
+  else
+    let prog1 := if init_obs gen_init_t3 c prog false then Loop 1 plain None [prog] else prog in
+    (* `if mode is None: mode = ADVANCED if program.depth() > 1 else SINGLE` *)
+    let single := if init_obs gen_init_t4 c prog1 false
+                  then negb (init_obs gen_init_t5 c prog1 false)
+                  else match c_mode c with Some m => negb m | None => false end in
+    if negb (c_nchan c =? 2) then Err EBadInput
+    else if negb (init_obs gen_init_t6 c prog1 single) then Err EAssert
+    else if init_obs gen_init_t7 c prog1 single then
+      if negb (single_obs gen_setup_single_sequence_mode_t1 c prog1) then Err EAssert
+      else if negb (single_obs gen_setup_single_sequence_mode_t2 c prog1) then Err EAssert
+      else if single_obs gen_setup_single_sequence_mode_t3 c prog1 then Err ETooLong
+      else do p <- parse_single tbl prog1; calc_segments c tbl p false
+    else
+      if negb (adv_obs gen_setup_advanced_sequence_mode_t1 c prog1 prog1) then Err EAssert
+      else if negb (adv_obs gen_setup_advanced_sequence_mode_t2 c prog1 prog1) then Err EAssert
+      else
+        do ch1 <- fab ff 2 [] (l_ch prog1);
+        do ch2 <- prep pf (c_min c) (c_max c) [] ch1;
+        if negb (forallb (fun t => adv_obs gen_setup_advanced_sequence_mode_t3 c prog1 t
+                                   && adv_obs gen_setup_advanced_sequence_mode_t4 c prog1 t) ch2) then Err EAssert
+        else do p <- parse_aseq tbl (set_ch prog1 ch2); calc_segments c tbl p true.
+
+Theorem gen_compile_with_eq ff pf c tbl prog : compile_with ff pf c tbl prog = compile_with_gen ff pf c tbl prog.
+Proof.
+  (* the encapsulation test by cases on its atoms (a re-ordering of the disjuncts in the source keeps the proof) *)
+  assert (E3 : init_obs gen_init_t3 c prog false = (l_rep prog >? 1) || l_vol prog || (depth prog =? 0)).
+  { unfold init_obs, gen_init_t3. destruct (l_rep prog >? 1), (l_vol prog), (depth prog =? 0); reflexivity. }
+  unfold compile_with, compile_with_gen. rewrite E3. clear E3.
+  unfold init_obs, single_obs, adv_obs,
+    gen_init_t1, gen_init_t2, gen_init_t4, gen_init_t5, gen_init_t6, gen_init_t7,
+    gen_setup_single_sequence_mode_t1, gen_setup_single_sequence_mode_t2, gen_setup_single_sequence_mode_t3,
+    gen_setup_advanced_sequence_mode_t1, gen_setup_advanced_sequence_mode_t2,
+    gen_setup_advanced_sequence_mode_t3, gen_setup_advanced_sequence_mode_t4.
+  destruct (negb (c_nchan c =? c_cpp c)); [reflexivity|].
+  destruct (negb (c_nmark c =? c_cpp c)); [reflexivity|].
+  set (prog1 := if (l_rep prog >? 1) || l_vol prog || (depth prog =? 0) then Loop 1 plain None [prog] else prog).
+  destruct (negb (c_nchan c =? 2)); [reflexivity|].
+  destruct (c_mode c) as [[|]|]; cbn [negb andb];
+    repeat match goal with
+           | |- context [if ?b then _ else _] =>
+               match b with context [if _ then _ else _] => fail 1 | _ => destruct b eqn:? end
+           end; try reflexivity; try discriminate; try (exfalso; lia).
 Qed.
